@@ -769,7 +769,13 @@ class DriverOracles(WalkOracles):
             self.events.append(("fix_exts", which, arg))
             return Tup([])
         if name == "is_compressed":
-            return none()
+            # a construction path that ASKS whether the graph is already compressed: both answers are explored, and a path that acts on
+            # "already compressed" is judged together with the exactness of that test (graph driver table)
+            ans = self.choose("is_compressed", ("not-compressed", "compressed"))
+            self.events.append(("asked-is_compressed", ans))
+            if ans == "compressed":
+                return none()
+            return some(Tup([Int(64, False, val=0), Int(64, False, val=1)]))
         return self.common(it, fn, args, dest_ty, term, caller)
 
 
@@ -936,6 +942,21 @@ def graph_driver_table(F, rep, rule):
                     problems.append(("the driver diverges: %s" % out[1], row))
                     continue
                 cens = censored or []
+                if ("asked-is_compressed", "compressed") in h.events and not [e for e in h.events if e[0] == "build"] and not cens:
+                    # the "nothing to do" short cut: the old graph is handed back.  Right exactly when (i) nothing is censored, (ii) the
+                    # test it relies on is exact, (iii) hanging extensions are still pruned
+                    from .dt_graph import is_compressed_exact
+                    ok, why = is_compressed_exact(F)
+                    fx = [e for e in h.events if e[0] == "fix_exts"]
+                    if ok is None:
+                        rep.inconclusive(rule, key0 + "/row%d" % rows, "driver: the old graph is returned when is_compressed says so; whether that test is exact "
+                                         "could not be decided (%s) (row %s)" % (why, row))
+                    elif not ok:
+                        problems.append(("the graph is handed back unchanged when is_compressed() reports it compressed, but that test is not exact: %s" % why, row))
+                    elif not (isinstance(out, Opaque) and "old-graph" in out.tags) or not any(e[1] == "old" and e[2] == "None" for e in fx):
+                        problems.append(("on the `already compressed` short cut the old graph must be returned with its hanging extensions pruned "
+                                         "(events %s)" % (h.events,), row))
+                    continue
                 probs, avail, builds = driver_checks(h.events, DriverOracles.N, cens, stranded, True)
                 eaten = set(cens)
                 want_builds = []
